@@ -66,7 +66,7 @@ def slice_keep(tier: str):
         if fam == "C13":
             return m["extra"] == "none" and m["def"] in ("ub1", "eq1", "sum1", "cond_neg", "nobody", "all_global", "ub2")
         if fam == "C15":
-            return (m.get("helper", "plain") in ("plain", "two_elems", "extra_neg", "bound", "nogrp")
+            return (m.get("helper", "plain") in ("plain", "two_elems", "extra_neg", "bound", "nogrp", "tuple2")
                     and m["fun"] in ("sum", "count", "max"))
         if fam == "C14":
             # every third program (by job id) of the two-literal rX/pq programs: math is the slowest pass
